@@ -192,3 +192,170 @@ def run(repo: Repo, rep: Report, tier: str) -> None:
     acp = repo.func("pdu_items", "PresentationContextItemAC.from_primitive")
     srcp = [norm(s) for s in walk_no_nested(acp) if isinstance(s, ast.stmt)]
     rep.check("transfer_syntax.transfer_syntax_name = primitive.transfer_syntax[0]" in srcp and "self.transfer_syntax_sub_item = [transfer_syntax]" in srcp and "self.result_reason = primitive.result" in srcp and "self.presentation_context_id = primitive.context_id" in srcp, "ac-results", "pdu_items.PresentationContextItemAC.from_primitive", "id, result and exactly one transfer syntax (the chosen one)", "each result item carries the context id, the result and one transfer syntax", mod=items, node=acp)
+
+    check_validators(repo, rep)
+
+# ---- validator character classes ------------------------------------------------------------
+def _forbidden_from_predicate(pred: ast.AST, var: str, mod) -> set[int] | None:
+    """set of ASCII code points c for which the per-character predicate `pred` (over name `var`)
+    is true, for the recognised predicate shapes; None when the shape is not recognised"""
+    import unicodedata
+
+    t = norm(pred)
+    if t in (f"unicodedata.category({var})[0] == 'C'", f"unicodedata.category({var}).startswith('C')"):
+        return {c for c in range(128) if unicodedata.category(chr(c))[0] == "C"}
+    if t in (f"unicodedata.category({var}) == 'Cc'",):
+        return {c for c in range(128) if unicodedata.category(chr(c)) == "Cc"}
+    if isinstance(pred, ast.Compare) and len(pred.ops) == 1 and isinstance(pred.ops[0], ast.In) and norm(pred.left) == var and isinstance(pred.comparators[0], ast.Constant) and isinstance(pred.comparators[0].value, str):
+        return {ord(ch) for ch in pred.comparators[0].value if ord(ch) < 128}
+    if isinstance(pred, ast.Compare) and len(pred.ops) == 1 and norm(pred.left) == f"ord({var})" and isinstance(pred.comparators[0], ast.Constant) and isinstance(pred.comparators[0].value, int):
+        k = pred.comparators[0].value
+        op = pred.ops[0]
+        f = {ast.Lt: lambda c: c < k, ast.LtE: lambda c: c <= k, ast.Gt: lambda c: c > k, ast.GtE: lambda c: c >= k, ast.Eq: lambda c: c == k}.get(type(op))
+        if f is not None:
+            return {c for c in range(128) if f(c)}
+    if isinstance(pred, ast.BoolOp):
+        parts = [_forbidden_from_predicate(v, var, mod) for v in pred.values]
+        if any(p is None for p in parts):
+            return None
+        out = parts[0]
+        for p in parts[1:]:
+            out = (out | p) if isinstance(pred.op, ast.Or) else (out & p)
+        return out
+    return None
+
+
+def _regex_single_class(pattern: str) -> set[int] | None:
+    """ASCII code points matched by a literal regex that is one character class (optionally repeated)"""
+    import re
+    import re._parser as sre_parse
+
+    try:
+        items = list(sre_parse.parse(pattern))
+    except Exception:
+        return None
+    if len(items) != 1:
+        return None
+    op, arg = items[0]
+    if str(op) in ("MAX_REPEAT", "MIN_REPEAT"):
+        lo, hi, sub = arg
+        sub = list(sub)
+        if lo < 1 or len(sub) != 1:
+            return None
+        op, arg = sub[0]
+    if str(op) not in ("IN", "LITERAL", "NOT_LITERAL", "CATEGORY"):
+        return None
+    rx = re.compile(pattern)
+    return {c for c in range(128) if rx.fullmatch(chr(c)) is not None}
+
+
+def ae_validator_model(repo: Repo, rep: Report):
+    """-> (max_len, allowed ASCII set, non-ASCII allowed?) of _validators.validate_ae, from its early-return chain"""
+    vm = repo.mod("_validators")
+    fn = vm.funcs.get("validate_ae")
+    rep.need(fn is not None, "_validators.validate_ae vanished")
+    var = fn.args.args[0].arg
+    forbidden: set[int] = set()
+    max_len = None
+    ascii_only = False
+    locals_forbidden: dict[str, set[int]] = {}
+    unknown = []
+    body = body_nodoc(fn)
+    for s in body:
+        if isinstance(s, ast.Assign) and isinstance(s.targets[0], ast.Name) and isinstance(s.value, (ast.ListComp, ast.GeneratorExp, ast.SetComp)) and len(s.value.generators) == 1 and norm(s.value.generators[0].iter) == var and len(s.value.generators[0].ifs) == 1:
+            g = s.value.generators[0]
+            f = _forbidden_from_predicate(g.ifs[0], norm(g.target), vm)
+            if f is None:
+                unknown.append(norm(s))
+            else:
+                locals_forbidden[s.targets[0].id] = f
+            continue
+        if isinstance(s, ast.If):
+            rejects = s.body and isinstance(s.body[-1], ast.Return) and isinstance(s.body[-1].value, ast.Tuple) and isinstance(s.body[-1].value.elts[0], ast.Constant) and s.body[-1].value.elts[0].value is False
+            if not rejects:
+                unknown.append(norm(s.test))
+                continue
+            conds = s.test.values if isinstance(s.test, ast.BoolOp) and isinstance(s.test.op, ast.Or) else [s.test]
+            for c in conds:
+                t = norm(c)
+                if t == f"not isinstance({var}, str)":
+                    continue
+                if isinstance(c, ast.Compare) and norm(c.left) == f"len({var})" and isinstance(c.ops[0], (ast.Gt, ast.GtE)) and isinstance(c.comparators[0], ast.Constant):
+                    k = c.comparators[0].value
+                    max_len = k if isinstance(c.ops[0], ast.Gt) else k - 1
+                    continue
+                if t == f"not {var}.isascii()":
+                    ascii_only = True
+                    continue
+                if isinstance(c, ast.Name) and c.id in locals_forbidden:
+                    forbidden |= locals_forbidden[c.id]
+                    continue
+                if isinstance(c, ast.Compare) and isinstance(c.ops[0], ast.In) and norm(c.comparators[0]) == var and isinstance(c.left, ast.Constant) and isinstance(c.left.value, str) and len(c.left.value) == 1:
+                    forbidden.add(ord(c.left.value))
+                    continue
+                if isinstance(c, ast.Call) and isinstance(c.func, ast.Attribute) and c.func.attr in ("search",) and len(c.args) == 1 and norm(c.args[0]) == var:
+                    # PATTERN.search(value) with PATTERN = re.compile(<literal>) at module level, or re.search(<literal>, value)
+                    pat = None
+                    recv = norm(c.func.value)
+                    for st in vm.assign_stmts.get(recv, []):
+                        v = getattr(st, "value", None)
+                        if isinstance(v, ast.Call) and dotted(v.func) == "re.compile" and v.args and isinstance(v.args[0], ast.Constant):
+                            pat = v.args[0].value
+                    cls = _regex_single_class(pat) if pat is not None else None
+                    if cls is None:
+                        unknown.append(t)
+                    else:
+                        forbidden |= cls
+                    continue
+                if isinstance(c, ast.Call) and dotted(c.func) == "re.search" and len(c.args) == 2 and norm(c.args[1]) == var and isinstance(c.args[0], ast.Constant):
+                    cls = _regex_single_class(c.args[0].value)
+                    if cls is None:
+                        unknown.append(t)
+                    else:
+                        forbidden |= cls
+                    continue
+                unknown.append(t)
+            continue
+        if isinstance(s, ast.Return):
+            continue
+        if isinstance(s, (ast.Import, ast.ImportFrom)):
+            continue
+        unknown.append(norm(s)[:60])
+    allowed = set(range(128)) - forbidden
+    return fn, vm, max_len, allowed, ascii_only, unknown
+
+
+def check_validators(repo: Repo, rep: Report) -> None:
+    rep.rule("ae-legal", "validate_ae accepts exactly strings of at most 16 characters from 0x20-0x7E without backslash (PS3.5 Table 6.2-1, VR AE), decided from the validator's early-return chain as a character-class model")
+    rep.rule("ui-legal", "validate_ui refuses UIDs that are not legal for VR UI whatever the configuration")
+    fn, vm, max_len, allowed, ascii_only, unknown = ae_validator_model(repo, rep)
+    for u in unknown:
+        rep.defer(f"_validators.validate_ae: condition not modelled: {u}")
+    want = set(range(0x20, 0x7F)) - {0x5C}
+    extra = sorted(allowed - want)
+    missing = sorted(want - allowed)
+    if not unknown:
+        rep.check(max_len == 16, "ae-legal", "_validators.validate_ae", f"maximum length {max_len}", "an AE title is at most 16 characters", mod=vm, node=fn)
+        rep.check(ascii_only, "ae-legal", "_validators.validate_ae", "non-ASCII refused", "AE titles are restricted to the default character repertoire", mod=vm, node=fn)
+        rep.check(not extra, "ae-legal", "_validators.validate_ae", f"accepted characters outside the VR: {[hex(c) for c in extra]}", f"validate_ae lets the character(s) {[hex(c) for c in extra]} through: an AE title containing them is put on the wire although it is not legal for VR AE (control characters and backslash are excluded)", mod=vm, node=fn)
+        rep.check(not missing, "ae-legal", "_validators.validate_ae", f"legal characters refused: {[hex(c) for c in missing]}", "validate_ae refuses characters that are legal for VR AE", mod=vm, node=fn)
+    rep.counters["AE characters accepted"] = len(allowed)
+    # UI
+    vu = vm.funcs.get("validate_ui")
+    rep.need(vu is not None, "_validators.validate_ui vanished")
+    # every `return True` must be dominated by a positive `value.is_valid` test
+    ok = True
+    for r in [r for r in ast.walk(vu) if isinstance(r, ast.Return) and isinstance(r.value, ast.Tuple) and isinstance(r.value.elts[0], ast.Constant) and r.value.elts[0].value is True]:
+        g = enclosing(r, (ast.If,))
+        guarded = False
+        while g is not None:
+            if norm(g.test).endswith(".is_valid") and any(x is r for s in g.body for x in ast.walk(s)):
+                guarded = True
+            g = enclosing(g, (ast.If,))
+        # or an earlier `if not value.is_valid: return False` at function level
+        early = any(isinstance(i, ast.If) and norm(i.test).startswith("not ") and norm(i.test).endswith(".is_valid") and i.lineno < r.lineno and isinstance(i.body[-1], ast.Return) for i in body_nodoc(vu))
+        if not (guarded or early):
+            ok = False
+            rep.fail("ui-legal", "_validators.validate_ui", r, "a UID is accepted without the VR UI conformance test (pydicom's UID.is_valid): with the default configuration (ENFORCE_UID_CONFORMANCE = False) only the length is checked, so a UID with illegal characters or components with leading zeros is put on the wire", mod=vm, node=r)
+    if ok:
+        rep.ok("ui-legal", "_validators.validate_ui :: every accepting return follows an is_valid test")
